@@ -64,6 +64,20 @@ CLAIMED["C14"] = (
     "DESIGN.md §4 C14",
 )
 
+CLAIMED["C13"] = (
+    "Theorems over messages, file names and report lists of any length (text as List Char): colour only adds SGR escape sequences "
+    "(stripAnsi (formatColor d) = formatPlain d, incl. the four-back-tick diff colouring); every rendered diagnostic is one line; "
+    "the lines of the report are exactly the rendered items in order (split . join = id), for all three formats; plain rendering "
+    "parses back to its fields (round trip); GitHub prints the same line/column numbers; hint iff a diagnostic and not quiet; exit "
+    "status: exit_iff_partial (no --debug dumps) + exit_iff_refuted (with --debug the full statement is false: known finding). "
+    "Model tied to main.py by ~1600 in-process format/sort comparisons per run and by CLI runs (plain, github, colour via pty).",
+    COMMON_NOTE
+    + "Modelled, not verified: Path.resolve()/relative_to for the GitHub format (the model takes the relative path as input); "
+    "terminal behaviour (only SGR sequences are considered); sort order is shared with C11 (Model/Report.lean:leItem).",
+    "Lean 4 proof over List Char (induction, span/split lemmas, core Nat.toDigits lemmas) + in-process correspondence + CLI/pty oracle",
+    "DESIGN.md §4 C13",
+)
+
 NOT_YET = "check not built yet in this round (work in progress; see DESIGN.md §8 order of work)"
 
 
